@@ -9,9 +9,10 @@ VARIABLES l, nfail
 vars == <<l, nfail>>
 Check(name, cond, r) == IF cond THEN 0 ELSE IF PrintT(<<"FAIL", name, l, r.src>>) THEN 1 ELSE 1
 
-\* 64 bytes per input byte plus 32 MiB: the decoder's deliberate pre-allocation cap
-\* (65 536 array elements) stays inside, allocations driven by a 2^31 length field do not
-AllocBound(r) == r.peak_kb <= (r.n \div 16) + 32768
+\* "in proportion to the input": at most 2 KiB per input byte (a Value tree of one-byte elements costs about 1.4 KiB per
+\* byte) plus 512 KiB (the io reader's 64 KiB chunk buffer and the harness's own bookkeeping stay far inside).  A reservation
+\* driven by a count or length field of a short input does not.
+AllocBound(r) == r.peak_kb <= 2 * r.n + 512
 Judge(r) ==
     Check("C04_Total", \A i \in DOMAIN r.st : r.st[i] \in {"ok", "err"}, r)
   + Check("C04_Alloc", AllocBound(r), r)
